@@ -242,6 +242,47 @@ pub mod inl {
         }
     }
 
+    /// derived-style constructor of a record with many fields (as derive_more::Constructor writes it): read as the literal
+    pub struct Wide {
+        pub a: String,
+        pub b: String,
+        pub c: String,
+        pub d: String,
+        pub e: String,
+        pub f: String,
+        pub g: Vec<i64>,
+        pub h: Vec<i64>,
+    }
+
+    #[automatically_derived]
+    impl Wide {
+        #[allow(clippy::too_many_arguments)]
+        pub fn new(a: String, b: String, c: String, d: String, e: String, f: String, g: Vec<i64>, h: Vec<i64>) -> Self {
+            Self { a, b, c, d, e, f, g, h }
+        }
+    }
+
+    pub fn wide_literal(x: String, y: String, v: Vec<i64>, w: Vec<i64>) -> Wide {
+        Wide { a: x.clone(), b: y.clone(), c: x.clone(), d: y.clone(), e: x, f: y, g: v, h: w }
+    }
+
+    pub fn wide_ctor(x: String, y: String, v: Vec<i64>, w: Vec<i64>) -> Wide {
+        Wide::new(x.clone(), y.clone(), x.clone(), y.clone(), x, y, v, w)
+    }
+
+    /// the same comparator as a closure literal and as a named function handed to the adaptor
+    pub fn sort_closure(xs: &mut [(i64, i64)]) {
+        xs.sort_unstable_by(|a, b| a.0.cmp(&b.0).reverse());
+    }
+
+    pub fn sort_named(xs: &mut [(i64, i64)]) {
+        xs.sort_unstable_by(by_first_desc);
+    }
+
+    fn by_first_desc(a: &(i64, i64), b: &(i64, i64)) -> std::cmp::Ordering {
+        a.0.cmp(&b.0).reverse()
+    }
+
     fn try_debit(v: &mut i64, d: i64) -> bool {
         let n = *v - d;
         if n >= 0 {
